@@ -330,3 +330,4 @@ def run(ctx):
     ctx.run_rule('C06.4c', 'T9', 'lexer progress and end-of-input state change', c01.r_lexer_eof_state, prog)
     ctx.run_rule('C06.5', 'T13', 'conditions under which the preprocessor lexer consumes, returns and switches modes (precondition ledger)', r_lexer_preconditions, prog)
     ctx.run_rule('C06.6', 'T2', 'preprocessed text is handed back exactly when parsing succeeded without errors', decisions.r_parser_entries, prog, ('preprocessor',))
+    ctx.run_rule('C06.2e', 'T6', 'truth table of condition expressions', decisions.r_expression_truth_table, prog)
